@@ -80,8 +80,46 @@ with used_s (s : stmt) : list str :=
   | _ => []
   end.
 
+(* order-sensitive free-variable analysis: `bound` = names of the current function known to be local at this
+   point (parameters, names assigned EARLIER in an enclosing-or-same block, loop counters inside their loop).
+   A use of a name that is not bound yet refers to the enclosing scope and is a capture, even if the function
+   assigns a local of the same name later. *)
+Fixpoint fv_e (bound : list str) (e : expr) : list str :=
+  let fix go (l : list expr) : list str := match l with [] => [] | a :: l => fv_e bound a ++ go l end in
+  match e with
+  | EVar x => if mem_str x bound then [] else [x]
+  | EBin _ a b | EAnd a b | EOr a b | ENilOr a b => fv_e bound a ++ fv_e bound b
+  | ENot a | ENeg a | EGet a _ => fv_e bound a
+  | ECall f a => fv_e bound f ++ go a
+  | ESelf a => go a
+  | EFn ps body =>
+    let fix gs (bd : list str) (l : list stmt) : list str :=
+      match l with [] => [] | s :: l => let '(u, bd') := fv_s bd s in u ++ gs bd' l end in
+    minus (gs ps body) bound
+  | _ => []
+  end
+with fv_s (bound : list str) (s : stmt) : list str * list str :=
+  let fix gs (bd : list str) (l : list stmt) : list str :=
+    match l with [] => [] | s :: l => let '(u, bd') := fv_s bd s in u ++ gs bd' l end in
+  let use x := if mem_str x bound then [] else [x] in
+  match s with
+  | SAssign x e => (fv_e bound e, x :: bound)
+  | SPrint e | SAssert e _ | SExpr e => (fv_e bound e, bound)
+  | SModify x e | SOpAssign x _ e => (use x ++ fv_e bound e, bound)
+  | SIf c b => (fv_e bound c ++ gs bound b, bound)
+  | SIfElse c b e => (fv_e bound c ++ gs bound b ++ gs bound e, bound)
+  | SIfElif c b n => (fv_e bound c ++ gs bound b ++ fst (fv_s bound n), bound)
+  | SWhile c b => (fv_e bound c ++ gs bound b, bound)
+  | SFrom a b _ st name collide body =>
+    let inner := match name with Some x => x :: bound | None => bound end in
+    (fv_e bound a ++ fv_e bound b ++ (match name, collide with Some x, true => use x | _, _ => [] end)
+       ++ gs inner body ++ (match st with Some e => fv_e inner e | None => [] end), bound)
+  | SReturn (Some e) => (fv_e bound e, bound)
+  | _ => ([], bound)
+  end.
+
 Definition free_vars (ps : list str) (body : list stmt) : list str :=
-  dedup (used_e (EFn ps body)).
+  dedup (fv_e [] (EFn ps body)).
 
 (* ---- loops: resolve the Break/Continue placeholders of a finished body (while_loop.rs, number_loop.rs) *)
 Fixpoint resolve (final_len step_len idx : nat) (l : list citem) : list citem :=
